@@ -24,8 +24,8 @@ def _side_rows(trace_dir: str, u: int = 1) -> List[Dict[str, Any]]:
     return rows
 
 
-def _mk_set(rng: random.Random, n_ranks: int, steps: int, first: int, variant: int) -> List[Dict[str, Any]]:
-    cfg = gen.GenCfg(n_ranks=n_ranks, n_steps=steps, first_step_no=first, p_launch=rng.choice([0.4, 0.7]), p_mem=0.2, p_comm=0.3,
+def _mk_set(rng: random.Random, n_ranks: int, steps: int, first: int, variant: int, per_rank=None) -> List[Dict[str, Any]]:
+    cfg = gen.GenCfg(per_rank=per_rank, n_ranks=n_ranks, n_steps=steps, first_step_no=first, p_launch=rng.choice([0.4, 0.7]), p_mem=0.2, p_comm=0.3,
                      p_sync=rng.choice([0, 0.1]), streams=rng.choice([(7,), (7, 9)]), max_children=rng.choice([2, 3]),
                      ops_per_step=(1, 2 + variant), base=rng.choice([0, 1000]), fmt=rng.choice(["json", "json.gz"]),
                      p_graph_launch=rng.choice([0.0, 0.0, 0.25]))
@@ -106,6 +106,12 @@ class C17(Prop):
             case["u"] = 4
         case["dev"] = rng.choice(["CPU", "GPU", "ALL"])
         case["short"] = rng.random() < 0.4
+        if k % 8 == 3 and case["mode"] == "other" and not case.get("shrunk") and k % 6 != 5:
+            # ranks that captured DIFFERENT profiler steps: the middle rank of the control side has no event in the selected iteration (an
+            # empty group between two non-empty ones); the selection is valid, the step exists in the trace set
+            case["control"] = _mk_set(random.Random(1000 + k), 3, steps, first, 0, per_rank={1: {"first_step_no": first + steps + 1}})
+            case["csel"] = ([0, 1, 2], first if k % 16 == 3 else [first])
+            case["from_loaded"] = False
         return case
 
     def observe(self, case):
